@@ -65,6 +65,8 @@ METHODS = {(int, 'bit_length'), (bytes, 'lstrip'), (bytes, 'rstrip'), (bytearray
            (bytes, 'decode'), (bytes, 'hex'), (str, 'format')}
 for _m in ('items', 'keys', 'values', 'get', 'pop', 'setdefault'):
     METHODS.add((dict, _m))
+for _m in ('insert', 'extend', 'clear', 'reverse', 'pop', 'remove', 'index', 'count', 'copy'):
+    METHODS.add((list, _m))
 BUILTINS['next'] = next
 BUILTINS['iter'] = iter
 BUILTINS['enumerate'] = lambda x, start=0: list(enumerate(x, start))
@@ -74,6 +76,8 @@ BUILTINS['set'] = set
 BUILTINS['dict'] = dict
 BUILTINS['zip'] = lambda *a: list(zip(*a))
 BUILTINS['frozenset'] = frozenset
+BUILTINS['map'] = lambda f, *seqs: [f(*a) for a in zip(*[list(x) for x in seqs])]
+BUILTINS['filter'] = lambda f, seq: [x for x in list(seq) if (f(x) if f is not None else x)]
 BUILTINS['isinstance'] = lambda v, t: isinstance(v, t) if isinstance(t, (type, tuple)) and all(isinstance(x, type) for x in (t if isinstance(t, tuple) else (t,))) else (_ for _ in ()).throw(Unsupported('isinstance with a model class'))
 TYPE_METHODS = {('dict', 'fromkeys'): dict.fromkeys}
 import functools as _functools
@@ -90,7 +94,7 @@ def _reduce(fn, seq, *init):
 
 
 DOTTED_CALLS = {'functools.reduce': _reduce}
-TYPE_VALUES = {'int': int, 'str': str, 'bytes': bytes, 'bytearray': bytearray, 'bool': bool, 'list': list, 'tuple': tuple, 'dict': dict, 'set': set}
+TYPE_VALUES = {'slice': slice, 'int': int, 'str': str, 'bytes': bytes, 'bytearray': bytearray, 'bool': bool, 'list': list, 'tuple': tuple, 'dict': dict, 'set': set}
 
 
 def _getattr(obj, name, *default):
@@ -197,8 +201,13 @@ class Evaluator:
                 return base[lo:hi:st]
             if isinstance(base, Native):
                 return base[self.ev(n.slice)]       # errors of model objects are part of the evaluated behaviour
+            key = self.ev(n.slice)
             try:
-                return base[self.ev(n.slice)]
+                return base[key]
+            except (IndexError, KeyError):
+                if isinstance(base, (list, tuple, dict, bytes, bytearray, str)):
+                    raise           # out of range / missing key on a plain container: part of the evaluated behaviour
+                raise Unsupported('%s' % ast.unparse(n))
             except Exception as e:      # pylint: disable=broad-except
                 raise Unsupported('%s: %s' % (ast.unparse(n), e))
         if isinstance(n, ast.Call):
@@ -220,6 +229,8 @@ class Evaluator:
             except Unsupported:
                 base = None
             if isinstance(base, Native) and hasattr(base, n.attr):
+                return getattr(base, n.attr)
+            if isinstance(base, slice) and n.attr in ('start', 'stop', 'step'):
                 return getattr(base, n.attr)
         if isinstance(n, ast.Attribute) and ast.unparse(n) in DOTTED and ast.unparse(n).split('.')[0] not in self.env:
             return DOTTED[ast.unparse(n)]
